@@ -248,6 +248,9 @@ def run(ctx: Ctx, tier: str) -> Result:
     # ---------------- API
     reg = p.func(DEEP + ".Deep.register_tracepoint")
     ac = [c for c in t.calls_in(reg) if add in t.resolve_call(c, reg).repo]
+    if not ac:
+        res.fail(Finding("C13.API", reg.qname, "<tracepoints.add_custom(path, line, args, watches, metrics)>", reg.loc(), "register_tracepoint does not register anything with the tracepoint service"))
+        return res
     need(len(ac) == 1, "register_tracepoint: add_custom call not found")
     ba = t.bind_args(add, ac[0])
     for i, role in enumerate(add.params[1:], start=1):
